@@ -512,6 +512,9 @@ def r8_persist_every_bucket(ctx, cfg):
 
 
 def run(ctx, cfg=CFG):
+    # E-drop (rules/dropped.py): no bool result of a function of these modules is thrown away by a caller anywhere in the workspace
+    from . import dropped
+    dropped.rule_dropped(ctx, "C05.R11", [k for k in ["cascette_formats", "cascette_client_storage", "cascette_cache", "cascette_protocol", "cascette_ribbit"] if k in (CRATES or [])] or CRATES, r"client-storage/src/(index|kmt)/", floor=20)
     # E-stale (rules/stale.py): no snapshot of a self field is written back after a self-method call that may have changed it
     from . import stale
     stale.rule_stale(ctx, "C05.R10", "cascette_client_storage", r"src/(index|kmt)/")
@@ -530,4 +533,4 @@ def run(ctx, cfg=CFG):
 
 
 from .selftest import for_families as _ff  # noqa: E402
-selftest = _ff(['gate', 'loop', 'dirty', 'stale'])
+selftest = _ff(['gate', 'loop', 'dirty', 'stale', 'drop'])
